@@ -260,6 +260,18 @@ def step (s : St) : Event → St × List Notif
 
 def run (s : St) (evs : List Event) : St := evs.foldl (fun s e => (step s e).1) s
 
+/-- `_pre_check_report_ok` is not atomic: the notification thread reads the state (first half), then takes
+    `_buffered_notifications_lock` and reads the state **again** (second half).  `finishBuffered` is the second half for
+    a thread whose first half saw `initializing`; `reload_all` may have finished in between (replay, clearing of the
+    buffer and the switch to `initialized` happen inside the same lock section, so `reloadEnd` is atomic with respect
+    to this step).  Still initializing ⇒ buffer; otherwise the pre-check answers True and the handler runs. -/
+def finishBuffered (s : St) (r : Report) : St × List Notif :=
+  match s.mode with
+  | .initializing => ({ s with buf := s.buf ++ [r] }, [])
+  | _ =>
+    let a := applyReport s.core r
+    ({ s with core := a.1 }, [a.2])
+
 /-- all notifications raised along the events -/
 def runNotifs : St → List Event → List Notif
   | _, [] => []
